@@ -1033,6 +1033,7 @@ class Interp:
         c = self.fn_contract
         if c is None or getattr(self, 'ghost_mode', False):
             return
+        self.check_alias_mutation(name)
         if name in getattr(self, 'param_alias', ()) and name not in c.modifies:
             self.oblige('frame(%s is mutated but not listed in modifies)' % name, False, 'frame')
 
@@ -1421,6 +1422,9 @@ class Interp:
             self.env[target.id] = value
             if hasattr(self, 'param_alias'):
                 self.param_alias.discard(target.id)      # rebound: no longer the caller's object
+            grp = getattr(self, 'aliases', {}).pop(target.id, None)
+            if grp:
+                grp.discard(target.id)
             return
         if isinstance(target, (ast.Tuple, ast.List)):
             U = self.U
@@ -1492,6 +1496,27 @@ class Interp:
         v = self.ev_pure(s.value) if getattr(self, 'ghost_mode', False) else self.ev(s.value)
         for t in s.targets:
             self.assign(t, v)
+        # alias guard: `x = y` with y a mutable container makes two names for one object; containers have value semantics
+        # here, so a later mutation through either name would not be seen through the other.  Remember the pair; a mutation
+        # of a name that still has a live alias leaves the subset (undecided) instead of being verified wrongly.
+        if not getattr(self, 'ghost_mode', False) and isinstance(s.value, ast.Name) and is_z3(v) and self.is_container(v):
+            for t in s.targets:
+                if isinstance(t, ast.Name) and t.id != s.value.id:
+                    self.aliases = getattr(self, 'aliases', {})
+                    grp = self.aliases.get(s.value.id) or {s.value.id}
+                    grp.add(t.id)
+                    for n in grp:
+                        self.aliases[n] = grp
+
+    def is_container(self, v):
+        sn = self.sort_of(v)
+        return sn in self.U.lists or sn in self.U.records or isinstance(v.sort(), z3.ArraySortRef)
+
+    def check_alias_mutation(self, name):
+        grp = getattr(self, 'aliases', {}).get(name)
+        if grp and len(grp) > 1:
+            raise OutsideSubset('mutation of %s, which has the alias(es) %s (containers have value semantics in the encoding)'
+                                % (name, ', '.join(sorted(grp - {name}))))
 
     def st_AugAssign(self, s):
         cur = self.ev(s.target)
